@@ -149,4 +149,18 @@ def toAstTree : Expr → Node
   | .assign op x rhs => ⟨op.toOperator, [⟨.varWrite x, []⟩, toAstTree rhs]⟩
   | .paren e => toAstTree e
 
+/-- `f x op y`: a function application standing left of an assignment operator (tokens) -/
+def callAssignTokens (op : AssignOp) : List Token :=
+  [.identifier cl!"f", .identifier cl!"x", op.token, .identifier cl!"y"]
+/-- what "function application binds tighter than any operator" promises for it: the assignment's
+left operand is the whole application -/
+def callAssignTree (op : AssignOp) : Node :=
+  ⟨.rootNode, [⟨op.toOperator, [⟨.fn cl!"f", [⟨.varWrite cl!"x", []⟩]⟩, ⟨.varRead cl!"y", []⟩]⟩]⟩
+/-- `a = f x = y` -/
+def chainCallAssignTokens : List Token :=
+  [.identifier cl!"a", .assign, .identifier cl!"f", .identifier cl!"x", .assign, .identifier cl!"y"]
+def chainCallAssignTree : Node :=
+  ⟨.rootNode, [⟨.assign, [⟨.varWrite cl!"a", []⟩,
+    ⟨.assign, [⟨.fn cl!"f", [⟨.varWrite cl!"x", []⟩]⟩, ⟨.varRead cl!"y", []⟩]⟩]⟩]⟩
+
 end Evalexpr.Spec
